@@ -8,6 +8,7 @@ caches of the same records."""
 from __future__ import annotations
 
 import itertools
+import os
 import warnings
 
 import numpy as np
@@ -169,16 +170,19 @@ class C07(Check):
                         return out
             want = final_measure(fresh, case["final"])
             last_binned = None
+            mix_workers = case["kind"] == "sampled" and case["seed"] % 3 == 0
             try:
                 for op in case["ops"]:
                     kind = op[0]
+                    nw = int(rng.choice([1, 2])) if mix_workers else 1
+                    os.environ["YAW_NUM_THREADS"] = str(nw)
                     if kind == "cross":
                         cfg = make_config(op[1])
-                        yaw.crosscorrelate(cfg, hist["ref"], hist["unk"], ref_rand=hist["rr"], unk_rand=hist["ur"], max_workers=1)
+                        yaw.crosscorrelate(cfg, hist["ref"], hist["unk"], ref_rand=hist["rr"], unk_rand=hist["ur"], max_workers=nw)
                         last_binned = op[1]
                     elif kind == "auto":
                         cfg = make_config(op[1])
-                        yaw.autocorrelate(cfg, hist["ref"], hist["rr"], count_rr=bool(rng.random() < 0.5), max_workers=1)
+                        yaw.autocorrelate(cfg, hist["ref"], hist["rr"], count_rr=bool(rng.random() < 0.5), max_workers=nw)
                         last_binned = op[1]
                     elif kind == "swap":
                         cfg = make_config(op[1])
@@ -188,7 +192,7 @@ class C07(Check):
                         HistData.from_catalog(hist["ref"], make_config(op[1]), max_workers=1)
                     elif kind == "build":
                         c = POOL[op[2]]
-                        hist[op[1]].build_trees(c["edges"], closed=c["closed"], force=op[3], max_workers=1)
+                        hist[op[1]].build_trees(c["edges"], closed=c["closed"], force=op[3], max_workers=nw)
                         if op[1] in ("ref", "rr"):
                             last_binned = op[2]
                     elif kind == "build_none":
@@ -197,6 +201,7 @@ class C07(Check):
                             last_binned = "unbinned"
                     elif kind == "reopen":
                         hist[op[1]] = Catalog(tmp / f"hist-{op[1]}", max_workers=1)
+                os.environ["YAW_NUM_THREADS"] = "1"
                 got = final_measure(hist, case["final"])
             except Exception as e:
                 import traceback
